@@ -21,6 +21,13 @@ func runC09(c *Ctx) {
 	c.rule(P, "siblings", "auth.isIPAllowed and Server.isIPAllowed implement the same membership rule (feature-by-feature) or delegate", 10)
 	c.rule(P, "accept", "acceptLoop closes and skips a connection whose isIPAllowed result is false, before registerConnection", 1)
 
+	// the allow-list and the secure flag the gate consults are the ones in force for this request only if the
+	// policy is read after admission under the policy read lock: borrow C16's admit-first (reported under C09)
+	savedOnly := c.Only
+	c.Only = map[string]bool{"admit-first": true}
+	runC16As(c, P)
+	c.Only = savedOnly
+
 	ent, err := p.entrySet()
 	if err != nil {
 		c.undecided(P, "gate", "entries", "", err.Error())
